@@ -126,8 +126,11 @@ def extract_fn(text, name):
 
 
 def s3_collectors(src_text, stats):
-    """S3: text extraction of the batch collectors of OptimizedConnectionHandler into free
-    functions over `&mut BytesMut`. Fails closed if the bodies touch any other field."""
+    """S3: text extraction of the synchronous decision procedures of OptimizedConnectionHandler into
+    free functions over `&mut BytesMut` (function text copied verbatim, `self.buffer` rebound).
+    (a) the batch collectors; (b) the parsing prefix of try_fast_get / try_fast_set (everything up to and
+    including the `split_to` that consumes the frame); (c) the two conditions under which run() answers
+    the commands a collector has consumed. Fails closed if a body touches any other field of `self`."""
     out = ["\n// ---- S3: generated by /verif/stage/stage.py (verbatim bodies, self.buffer rebound) ----\n"]
     for name in ("collect_get_keys", "collect_set_pairs"):
         f = extract_fn(src_text, name)
@@ -147,6 +150,49 @@ def s3_collectors(src_text, stats):
         body = re.sub(r"\bself\.buffer\b", "(*buffer)", body)
         out.append("#[allow(dead_code, unused_mut, clippy::all)]\n" + sig2 + body + "\n")
         stats["s3"] += 1
+    # (b) fast-path parsing prefixes
+    for name, ret, tail in (("try_fast_get", "(bytes::Bytes, usize)", "Ok((key, total_needed))"),
+                            ("try_fast_set", "(bytes::Bytes, bytes::Bytes, usize)", "Ok((key, value, total_needed))")):
+        f = extract_fn(src_text, name)
+        if f is None:
+            die(f"S3: fn {name} not found")
+        marker = "let _ = self.buffer.split_to(total_needed);"
+        if f.count(marker) != 1:
+            die(f"S3: {name}: consume marker not found exactly once")
+        body = f[f.index("{"):f.index(marker) + len(marker)]
+        fields = set(re.findall(r"\bself\.([a-zA-Z_][a-zA-Z0-9_]*)", body))
+        if fields - {"buffer"}:
+            die(f"S3: {name} parsing prefix uses self fields {sorted(fields)}")
+        if ".await" in body:
+            die(f"S3: {name} parsing prefix awaits")
+        body, n1 = re.subn(r"return FastPathResult::NeedMoreData;", "return Err(1);", body)
+        body, n2 = re.subn(r"return FastPathResult::NotFastPath;", "return Err(2);", body)
+        if "FastPathResult" in body:
+            die(f"S3: {name}: unhandled FastPathResult use in the parsing prefix")
+        body = re.sub(r"\bself\.buffer\b", "(*buffer)", body)
+        out.append("#[allow(dead_code, unused_mut, clippy::all)]\npub fn verif_%s_parse(buffer: &mut bytes::BytesMut) -> Result<%s, u8> %s\n        %s\n    }\n"
+                   % (name[4:], ret, body, tail))
+        stats["s3"] += 1
+    # (c) admission conditions in run()
+    run = extract_fn(src_text, "run")
+    if run is None:
+        die("S3: fn run not found")
+    conds = []
+    for call, var in (("let (get_keys, get_count) = self.collect_get_keys();", "get_count"),
+                      ("let (set_pairs, set_count) = self.collect_set_pairs();", "set_count")):
+        if run.count(call) != 1:
+            die(f"S3: run(): `{call}` not found exactly once")
+        rest = run[run.index(call) + len(call):]
+        m = re.match(r"\s*(?://[^\n]*\n\s*)*if ([^{]*?)\s*\{", rest)
+        if not m:
+            die(f"S3: run(): no `if` directly after `{call}`")
+        cond = m.group(1)
+        idents = set(re.findall(r"[A-Za-z_][A-Za-z0-9_]*", cond))
+        if not idents <= {var, "batch_threshold"}:
+            die(f"S3: run(): admission condition `{cond}` mentions {sorted(idents)}")
+        conds.append(cond)
+    out.append("#[allow(dead_code, unused_variables, clippy::all)]\npub fn verif_batch_admitted(get_count: usize, set_count: usize, batch_threshold: usize) -> (bool, bool) {\n    ((%s), (%s))\n}\n" % (conds[0], conds[1]))
+    stats["s3"] += 1
     return "".join(out)
 
 
@@ -183,6 +229,9 @@ def main():
                 text = subst_memchr(text, stats)
                 if rel == "src/production/connection_optimized.rs":
                     text += s3_collectors(text, stats)
+                if rel == "src/production/mod.rs":
+                    text += ("\n// S3: generated re-exports\npub use connection_optimized::{verif_batch_admitted, verif_collect_get_keys, "
+                             "verif_collect_set_pairs, verif_fast_get_parse, verif_fast_set_parse};\n")
                 if changed:
                     stats["files_substituted"] += 1
                 data = text.encode("utf-8")
